@@ -44,6 +44,12 @@ PROPS = {
              count_all=True),
     "C11": P(CTORS, "all named constructors, n = 0..14, all i < n, k in 0..n+2 and 63, 64, 65, 2^32, usize::MAX, "
              "all count masks for n <= 5 and structured/random 64-bit masks above"),
+    "C18": P(["optimize"],
+             "optimize_sop_mip / optimize_sopes_mip / optimize_esop_mip on all lists of 1..2 functions for n <= 2 and all single "
+             "functions of n = 3 (sampled in the quick tier), gate-cost triples from {1,2,3}^3; soundness and cost compared with the "
+             "specification's exact optimum (dynamic programming over candidate terms)",
+             exe="voptim", profiles_thorough=["checked"], chunk_weight=40,
+             assumptions=TRUST + ["HiGHS/good_lp are exercised as part of the code under test"]),
     "C19": P(["random", "rand_end"],
              "256 draws per size n = 0..12 and per thread, on 1 thread and on 4 (thorough: 16) concurrent threads, Lut and LutN: "
              "every draw well-formed; per thread every assignment sees both values and no two assignments have equal or "
